@@ -27,12 +27,13 @@ import (
 )
 
 type tcase struct {
-	Op     string // afs utx ujs jsn str min pfs putx pujs pjsn pstr
+	Op     string // afs utx ujs jsn str min pfs putx pujs pjsn pstr; stab stabc (stability.go)
 	Text   string `json:"-"`
 	Hex    string // Text, hex (texts may be arbitrary bytes)
 	V      int64
 	E      uint32
 	Stream string
+	Seq    []sval `json:"Seq,omitempty"` // stab / stabc: the values written, in order
 }
 
 func (t *tcase) fix() {
@@ -398,6 +399,10 @@ func pad(r *rand.Rand, tok string) string {
 func Run(c *core.Ctx) int {
 	var rc tcase
 	if c.ReplayCase(&rc) {
+		if rc.Op == "stab" || rc.Op == "stabc" {
+			runStabCase(c, rc)
+			return c.Finish("replay", nil)
+		}
 		rc.fix()
 		return runCases(c, []tcase{rc})
 	}
@@ -518,6 +523,10 @@ func Run(c *core.Ctx) int {
 			}
 		}
 	}
+	// members with one character replaced by a Unicode look-alike of its class, through every reading entry point
+	lookalikeCases(r, c.Pick(12000, 150000), add, func(name string) { c.Count(name, 1) })
+	// what the writers return stays what it was while further values are written
+	stability(c, r)
 	// written texts
 	for _, v := range boundaryValues() {
 		for e := uint32(0); e <= 18; e++ {
@@ -704,7 +713,7 @@ func parseResp(s string) (r mresp) {
 // decodeToken classifies a JSON token: kind "string" (with its decoded value),
 // "number", "null" or "other"; ok=false when it is not valid JSON at all.
 func decodeToken(tok string) (kind, content string, hasEscape, ok bool) {
-	tr := strings.TrimSpace(tok)
+	tr := jsonTrim(tok)
 	if !json.Valid([]byte(tr)) || tr == "" {
 		return "", "", false, false
 	}
@@ -723,9 +732,23 @@ func decodeToken(tok string) (kind, content string, hasEscape, ok bool) {
 	return "other", "", false, true
 }
 
+// jsonTrim removes what JSON calls insignificant whitespace, and nothing else (strings.TrimSpace
+// would also remove \v, \f, NEL, NBSP and the Unicode spaces, which no JSON reader may skip).
+func jsonTrim(s string) string { return strings.Trim(s, " \t\r\n") }
+
+// directToken: UnmarshalJSON called directly (ujs / pujs) with what encoding/json would hand over,
+// one JSON value (a string token may be followed by JSON whitespace, the code reads it with
+// json.Unmarshal); such a case is judged like a jsn / pjsn case, by the value of the token.
+func directToken(t tcase) bool {
+	if (t.Op != "ujs" && t.Op != "pujs") || t.Text == "" || !json.Valid([]byte(t.Text)) {
+		return false
+	}
+	return t.Text[0] == '"' || jsonTrim(t.Text) == t.Text
+}
+
 func mulBig(a *big.Int, k int64) *big.Int { return new(big.Int).Mul(a, big.NewInt(k)) }
 
-const ruleText = "fixed near-miss table, boundary values (0, ±1, ±10^k, 10^k±1, 2^52, 2^53, ±(2^63-1), ±2^63, ±(2^63+1)) written with 0..20 decimals, grammar members with 1..40 digit runs, one and two single-character mutations (insert/delete/replace with + - . e E % space , _ non-ASCII digits NUL quote newline), random byte strings incl. invalid UTF-8, JSON tokens (bare numbers, quoted, one or all characters escaped in either hex case or as two-character escapes, surrogate pairs, padded, null/true/objects, the strings \"null\" and \"\", malformed quoted tokens with bad escapes / raw control bytes / invalid UTF-8 / trailing text) through encoding/json and directly through UnmarshalJSON/UnmarshalText; written texts for boundary and random int64 values at exponents 0..18 (percentages 0..20); non-trivial = pattern member or accepted input or a written text; distinct by operation and input"
+const ruleText = "fixed near-miss table, boundary values (0, ±1, ±10^k, 10^k±1, 2^52, 2^53, ±(2^63-1), ±2^63, ±(2^63+1)) written with 0..20 decimals, grammar members with 1..40 digit runs, one and two single-character mutations (insert/delete/replace with + - . e E % space , _ non-ASCII digits NUL quote newline), random byte strings incl. invalid UTF-8, members with ONE character replaced by a Unicode look-alike of its class (every decimal digit of category Nd of the same value, super/subscript and enclosed digits, percent / minus / point signs of other scripts and widths) or with a plus or space variant inserted, each through AmountFromString / PercentageFromString, UnmarshalText, UnmarshalJSON directly (bare, as a JSON string raw and escaped) and through encoding/json, all judged by the same oracle (accepted iff fitting pattern member), JSON tokens (bare numbers, quoted, one or all characters escaped in either hex case or as two-character escapes, surrogate pairs, padded, null/true/objects, the strings \"null\" and \"\", malformed quoted tokens with bad escapes / raw control bytes / invalid UTF-8 / trailing text) through encoding/json and directly through UnmarshalJSON/UnmarshalText; written texts for boundary and random int64 values at exponents 0..18 (percentages 0..20); result stability: everything the writers return (MarshalText, String, MinimalString, StringWithoutSymbol, json.Marshal; the returned slice or string itself) is kept while further, different values are written (sequences of 2-4 and of 32-231 amounts and percentages, two passes; 2/4/8/16 goroutines at once), then compared with the copy taken when the call returned and read back again; non-trivial = pattern member or accepted input or a written text; distinct by operation and input"
 
 func runCases(c *core.Ctx, cases []tcase) int {
 	o, err := newOracle(c.Repo)
@@ -749,8 +772,9 @@ func runCases(c *core.Ctx, cases []tcase) int {
 func runChunk(c *core.Ctx, o *oracle, cases []tcase) bool {
 	gos := make([]goRes, len(cases))
 	var reqs []string
-	idx := make([]int, len(cases)) // request index of the model request, -1 if none
-	jdx := make([]int, len(cases)) // request index of the JSON oracle request
+	idx := make([]int, len(cases))     // request index of the model request, -1 if none
+	jdx := make([]int, len(cases))     // request index of the JSON oracle request
+	asJSON := make([]bool, len(cases)) // judged by the value of the JSON token (jsn, pjsn, direct calls with one token)
 	for i := range cases {
 		t := &cases[i]
 		if t.Hex == "" {
@@ -761,22 +785,27 @@ func runChunk(c *core.Ctx, o *oracle, cases []tcase) bool {
 		if gos[i].pan != "" {
 			continue
 		}
-		if t.Op == "jsn" || t.Op == "pjsn" {
-			// model: UnmarshalJSON on the trimmed token (what encoding/json hands over);
-			// oracle: Spec on the decoded content
+		if direct := directToken(*t); t.Op == "jsn" || t.Op == "pjsn" || direct {
+			// model: UnmarshalJSON on the trimmed token (what encoding/json hands over; a direct
+			// call: on the text as it was given); oracle: Spec on the decoded content
 			kind, content, _, ok := decodeToken(t.Text)
 			if !ok {
 				continue
 			}
 			g := gos[i]
+			asJSON[i] = true
 			op, pop := "ujs", "afs"
 			cv, ce := cur.Value(), cur.Exp()
-			if t.Op == "pjsn" {
+			if t.Op == "pjsn" || t.Op == "pujs" {
 				op, pop = "pujs", "pfs"
 				cv, ce = curP.Value(), curP.Exp()
 			}
+			tok := core.Hex(jsonTrim(t.Text))
+			if direct {
+				tok = t.Hex
+			}
 			idx[i] = len(reqs)
-			reqs = append(reqs, fmt.Sprintf("%s %s %d %d %d %d %d", op, core.Hex(strings.TrimSpace(t.Text)), cv, ce, b2i(g.ok), g.v, g.e))
+			reqs = append(reqs, fmt.Sprintf("%s %s %d %d %d %d %d", op, tok, cv, ce, b2i(g.ok), g.v, g.e))
 			if kind == "string" || kind == "number" {
 				jdx[i] = len(reqs)
 				reqs = append(reqs, fmt.Sprintf("%s %s %d %d %d", pop, core.Hex(content), b2i(g.ok), g.v, g.e))
@@ -815,7 +844,11 @@ func runChunk(c *core.Ctx, o *oracle, cases []tcase) bool {
 			}
 			continue
 		}
-		switch t.Op {
+		op := t.Op
+		if asJSON[i] {
+			op = map[string]string{"jsn": "jsn", "ujs": "jsn", "pjsn": "pjsn", "pujs": "pjsn"}[t.Op]
+		}
+		switch op {
 		case "afs", "utx", "ujs":
 			judgeAmountRead(c, o, t, t.Text, g, mr, t.Op != "afs")
 		case "jsn":
@@ -867,16 +900,30 @@ func modelVsGo(c *core.Ctx, t tcase, g goRes, mr mresp) {
 
 // amount reading: AmountFromString / UnmarshalText / UnmarshalJSON called directly on text
 func judgeAmountRead(c *core.Ctx, o *oracle, t tcase, text string, g goRes, mr mresp, unmarshal bool) {
+	fn := "AmountFromString"
 	if unmarshal {
-		// raw bytes handed to Unmarshal*: the bare "null" is the documented no-op, a
-		// quoted value is decoded as a JSON string by UnmarshalJSON: only the model is
-		// compared here, the property is judged on the afs and jsn forms
-		c.Eval(t.Op+" "+t.Hex, g.ok)
-		if text == "null" && g.ok && (g.v != cur.Value() || g.e != cur.Exp()) {
-			c.Fail("", "UnmarshalText(\"null\") altered the receiver", t)
+		// raw bytes handed to Unmarshal*: the bare "null" is the documented no-op; a text that
+		// begins with a quote and reaches this point is no JSON string token (those are judged by
+		// their value, see directToken) and must not be read as a number; every other text is
+		// read as it stands, so the oracle of AmountFromString applies to it
+		fn = map[string]string{"utx": "(*Amount).UnmarshalText", "ujs": "(*Amount).UnmarshalJSON"}[t.Op]
+		if text == "null" {
+			c.Eval(t.Op+" "+t.Hex, g.ok)
+			if g.ok && (g.v != cur.Value() || g.e != cur.Exp()) {
+				c.Fail("", fn+"(\"null\") altered the receiver", t)
+			}
+			modelVsGo(c, t, g, mr)
+			return
 		}
-		modelVsGo(c, t, g, mr)
-		return
+		if t.Op == "ujs" && strings.HasPrefix(text, "\"") {
+			c.Eval(t.Op+" "+t.Hex, g.ok)
+			if g.ok {
+				c.Fail("", fmt.Sprintf("%s accepted %q, which is not a JSON string token, as %d:%d", fn, text, g.v, g.e), t)
+				return
+			}
+			modelVsGo(c, t, g, mr)
+			return
+		}
 	}
 	pat := o.amountRe.MatchString(text)
 	if pat != o.amountFileRe.MatchString(text) {
@@ -892,7 +939,7 @@ func judgeAmountRead(c *core.Ctx, o *oracle, t tcase, text string, g goRes, mr m
 		c.TieBroken("drive:C06/fits64", fmt.Sprintf("Lean fits64 %v vs Go %v on %q", mr.fits, fits(text), text), t)
 		return
 	}
-	c.Eval("afs "+t.Hex, pat || g.ok)
+	c.Eval(t.Op+" "+t.Hex, pat || g.ok)
 	if pat {
 		c.Count("amount:pattern-member", 1)
 		if !want {
@@ -903,13 +950,13 @@ func judgeAmountRead(c *core.Ctx, o *oracle, t tcase, text string, g goRes, mr m
 	what := ""
 	switch {
 	case g.ok && !want:
-		verdict, what = false, fmt.Sprintf("AmountFromString accepted %q as %d:%d although it is not a fitting member of the published pattern", text, g.v, g.e)
+		verdict, what = false, fmt.Sprintf("%s accepted %q as %d:%d although it is not a fitting member of the published pattern", fn, text, g.v, g.e)
 	case !g.ok && want:
-		verdict, what = false, fmt.Sprintf("AmountFromString rejected %q (%s) although it matches the published pattern and fits in 64 bits", text, g.err)
+		verdict, what = false, fmt.Sprintf("%s rejected %q (%s) although it matches the published pattern and fits in 64 bits", fn, text, g.err)
 	case g.ok:
 		_, _, d := readDecimal(text)
 		if ratOf(g.v, g.e).Cmp(textRat(text)) != 0 || int(g.e) != d {
-			verdict, what = false, fmt.Sprintf("AmountFromString read %q as %d:%d", text, g.v, g.e)
+			verdict, what = false, fmt.Sprintf("%s read %q as %d:%d", fn, text, g.v, g.e)
 		}
 	}
 	if verdict != mr.pOK {
@@ -935,19 +982,32 @@ func pctClassRead(o *oracle, text string) string {
 }
 
 func judgePctRead(c *core.Ctx, o *oracle, t tcase, text string, g goRes, mr mresp, unmarshal bool) {
+	fn := "PercentageFromString"
 	if unmarshal {
-		c.Eval(t.Op+" "+t.Hex, g.ok)
-		if text == "null" && g.ok && (g.v != curP.Value() || g.e != curP.Exp()) {
-			c.Fail("", "Percentage.UnmarshalText(\"null\") altered the receiver", t)
+		// as for amounts: "null" is the no-op, a quoted text that is no JSON string token must be
+		// rejected, every other text is read as it stands and judged as PercentageFromString is
+		fn = map[string]string{"putx": "(*Percentage).UnmarshalText", "pujs": "(*Percentage).UnmarshalJSON"}[t.Op]
+		malformed := t.Op == "pujs" && strings.HasPrefix(text, "\"")
+		if text == "null" || malformed {
+			c.Eval(t.Op+" "+t.Hex, g.ok)
+			switch {
+			case text == "null" && g.ok && (g.v != curP.Value() || g.e != curP.Exp()):
+				c.Fail("", fn+"(\"null\") altered the receiver", t)
+			case malformed && g.ok:
+				c.Fail("", fmt.Sprintf("%s accepted %q, which is not a JSON string token, as %d:%d", fn, text, g.v, g.e), t)
+				return
+			}
+			if mr.dom {
+				modelVsGo(c, t, g, mr)
+			} else {
+				c.Count("pct:outside-exact-domain", 1)
+			}
+			return
 		}
-		if mr.dom {
-			modelVsGo(c, t, g, mr)
-		} else {
-			c.Count("pct:outside-exact-domain", 1)
-		}
+	}
+	if !judgePctText(c, o, t, text, g, mr, fn) {
 		return
 	}
-	judgePctText(c, o, t, text, g, mr, "PercentageFromString")
 	if mr.dom {
 		modelVsGo(c, t, g, mr)
 	} else {
@@ -968,7 +1028,11 @@ func judgePctText(c *core.Ctx, o *oracle, t tcase, text string, g goRes, mr mres
 	}
 	body := strings.TrimSuffix(text, "%")
 	want := pat && fits(body)
-	c.Eval("pfs "+core.Hex(text), pat || g.ok)
+	evalOp := "pfs"
+	if t.Op == "putx" || t.Op == "pujs" {
+		evalOp = t.Op
+	}
+	c.Eval(evalOp+" "+core.Hex(text), pat || g.ok)
 	if pat {
 		c.Count("pct:pattern-member", 1)
 	}
@@ -1048,7 +1112,11 @@ func judgeJSON(c *core.Ctx, o *oracle, t tcase, g goRes, mr mresp, jr *mresp, pc
 				c.Fail("", "the empty JSON string is accepted as a percentage", t)
 				return
 			}
-			clean = judgePctText(c, o, t, content, g, *jr, "json.Unmarshal into num.Percentage")
+			via := "json.Unmarshal into num.Percentage"
+			if t.Op == "pujs" {
+				via = "(*Percentage).UnmarshalJSON"
+			}
+			clean = judgePctText(c, o, t, content, g, *jr, via)
 		} else {
 			clean = judgeAmountJSONContent(c, o, t, content, g, *jr)
 		}
@@ -1069,15 +1137,19 @@ func judgeAmountJSONContent(c *core.Ctx, o *oracle, t tcase, content string, g g
 	}
 	want := pat && fits(content)
 	verdict, what := true, ""
+	via := "json.Unmarshal into num.Amount"
+	if t.Op == "ujs" {
+		via = "(*Amount).UnmarshalJSON"
+	}
 	switch {
 	case g.ok && !want:
-		verdict, what = false, fmt.Sprintf("json.Unmarshal into num.Amount accepted %s as %d:%d although %q is not a fitting member of the published pattern", t.Text, g.v, g.e, content)
+		verdict, what = false, fmt.Sprintf(via+" accepted %s as %d:%d although %q is not a fitting member of the published pattern", t.Text, g.v, g.e, content)
 	case !g.ok && want:
-		verdict, what = false, fmt.Sprintf("json.Unmarshal into num.Amount rejected %s (%s) although %q matches the published pattern and fits in 64 bits", t.Text, g.err, content)
+		verdict, what = false, fmt.Sprintf(via+" rejected %s (%s) although %q matches the published pattern and fits in 64 bits", t.Text, g.err, content)
 	case g.ok:
 		_, _, d := readDecimal(content)
 		if ratOf(g.v, g.e).Cmp(textRat(content)) != 0 || int(g.e) != d {
-			verdict, what = false, fmt.Sprintf("json.Unmarshal into num.Amount read %s as %d:%d", t.Text, g.v, g.e)
+			verdict, what = false, fmt.Sprintf(via+" read %s as %d:%d", t.Text, g.v, g.e)
 		}
 	}
 	if verdict != jr.pOK {
